@@ -388,7 +388,12 @@ func VerifC02Two() {
 	defer c02Done()
 	fs, m := c02Setup()
 	h1 := c02Open(fs, m, "h1", verifParam("NFLAGS"))
-	h2 := c02Open(fs, m, "h2", verifParam("NFLAGS"))
+	// the second handle may also be a truncating open (RW+TRUNC, index 5): the first handle must see it
+	n2 := verifParam("NFLAGS2")
+	if n2 == 0 {
+		n2 = verifParam("NFLAGS")
+	}
+	h2 := c02Open(fs, m, "h2", n2)
 	hs := []*c02H{h1, h2}
 	c02Prime(m, h1, "h1")
 	K := verifParam("K")
